@@ -61,8 +61,8 @@ func Run(ctx *core.Ctx) {
 		"blank at all, letter-initial, starting with a digit of the status code / another digit / the whole code once or twice / the code glued to text, digits only, " +
 		"leading blanks, tabs, trailing blanks, containing HTTP/1.1, 1-6 KiB, bytes >= 0x80, random mixes, extra blanks before the code) on one exchange in four and as a " +
 		"matrix kind x {HEAD with 200/404/301/503/204/304, GET/POST 204, GET 304 = the header-only writer; bodies with 200/201/302/404/429/500/599 = Response.Write}: the first " +
-		"line the client receives is compared byte for byte with Model/RespStatus (RESP statusline) and with the origin's line (a line that ends after the code is " +
-		"expected with the code repeated as phrase: net/http's normalisation, c02_status_line_bare_code); plus SLOW ORIGIN BODIES under proxies configured with every " +
+		"line the client receives is compared byte for byte with Model/RespStatus (RESP statusline) and with the origin's line (a line that ends after the code promises no phrase at the client either; " +
+		"the code writes the code again in its place: known finding F50, class decided from the input, what is written still held to the model); plus SLOW ORIGIN BODIES under proxies configured with every " +
 		"combination of ReadTimeout / ReadHeaderTimeout / IdleTimeout / WriteTimeout in {not set, 300-500 ms}: head at once, body (Content-Length, chunked, " +
 		"close-delimited, event stream; direct and MITM) in 3-5 pieces over 2-4x the largest limit, the client reads promptly: whenever WriteTimeout is not set the " +
 		"complete response must arrive whatever the other limits are (Model/RespRelay relayWriteDeadline; a failed attempt is repeated twice before it counts); " +
